@@ -20,8 +20,8 @@ use crate::util::*;
 /// fixed capacities available for `ArrayBuf<N>` (const generics need compile-time values)
 pub const CAPS: &[usize] = &[
     0, 1, 2, 3, 4, 5, 6, 7, 8, 9, 10, 11, 12, 13, 14, 15, 16, 17, 18, 19, 20, 21, 22, 23, 24, 25, 26,
-    27, 28, 29, 30, 31, 32, 33, 34, 35, 36, 37, 38, 39, 40, 41, 42, 43, 44, 45, 46, 47, 48, 64, 96, 128,
-    256, 1024, 8191, 8192, 8193, 65535, 65536, 65537, 70000,
+    27, 28, 29, 30, 31, 32, 33, 34, 35, 36, 37, 38, 39, 40, 41, 42, 43, 44, 45, 46, 47, 48, 51, 55, 59, 63, 64,
+    95, 96, 127, 128, 255, 256, 1023, 1024, 8191, 8192, 8193, 65535, 65536, 65537, 70000,
 ];
 
 /// `with_cap!(cap, B, mk => body)`: evaluates `body` with the type alias `B` bound to `Vec<u8>` or
@@ -37,7 +37,7 @@ macro_rules! with_cap {
             }
             Some(n) => with_cap!(@arms n, $B, $mk, $body,
                 0 1 2 3 4 5 6 7 8 9 10 11 12 13 14 15 16 17 18 19 20 21 22 23 24 25 26 27 28 29 30 31 32
-                33 34 35 36 37 38 39 40 41 42 43 44 45 46 47 48 64 96 128 256 1024 8191 8192 8193 65535 65536 65537 70000),
+                33 34 35 36 37 38 39 40 41 42 43 44 45 46 47 48 51 55 59 63 64 95 96 127 128 255 256 1023 1024 8191 8192 8193 65535 65536 65537 70000),
         }
     };
     (@arms $n:expr, $B:ident, $mk:ident, $body:expr, $($k:literal)*) => {
@@ -262,36 +262,83 @@ pub enum Ev {
     Eof(u8),
 }
 
-pub fn parse_events(toks: &[&str]) -> Option<Vec<Ev>> {
-    let mut v = Vec::new();
-    for t in toks {
-        match *t {
-            "W" => v.push(Ev::WouldBlock),
-            "I" => v.push(Ev::Interrupted),
-            t if t.starts_with('O') => v.push(Ev::Other(t.as_bytes().get(1).map(|c| c.wrapping_sub(b'a') + 1).unwrap_or(0))),
-            "E" => v.push(Ev::Eof(0)),
-            "Ee" => v.push(Ev::Eof(1)),
-            "Ex" => v.push(Ev::Eof(2)),
-            t => v.extend(untok(t)?.into_iter().map(Ev::Byte)),
+/// events in compact form: runs of bytes and single faults (a 4 GiB run costs 4 GiB, not 8)
+#[derive(Clone)]
+pub enum Seg {
+    Bytes(std::sync::Arc<Vec<u8>>),
+    Fault(Ev),
+}
+
+#[derive(Clone)]
+pub struct EvStream {
+    segs: Vec<Seg>,
+    si: usize,
+    off: usize,
+}
+
+impl EvStream {
+    pub fn next_ev(&mut self) -> Option<Ev> {
+        loop {
+            match self.segs.get(self.si) {
+                None => return None,
+                Some(Seg::Fault(e)) => {
+                    self.si += 1;
+                    return Some(*e);
+                }
+                Some(Seg::Bytes(b)) => {
+                    if self.off < b.len() {
+                        let x = b[self.off];
+                        self.off += 1;
+                        return Some(Ev::Byte(x));
+                    }
+                    self.si += 1;
+                    self.off = 0;
+                }
+            }
         }
     }
-    Some(v)
+    pub fn has_eof(&self) -> bool {
+        self.segs.iter().any(|s| matches!(s, Seg::Fault(Ev::Eof(_))))
+    }
+    pub fn bytes(&self) -> Vec<u8> {
+        let mut v = Vec::new();
+        for s in &self.segs {
+            if let Seg::Bytes(b) = s {
+                v.extend_from_slice(b);
+            }
+        }
+        v
+    }
+}
+
+pub fn parse_events(toks: &[&str]) -> Option<EvStream> {
+    let mut segs = Vec::new();
+    for t in toks {
+        match *t {
+            "W" => segs.push(Seg::Fault(Ev::WouldBlock)),
+            "I" => segs.push(Seg::Fault(Ev::Interrupted)),
+            t if t.starts_with('O') => segs.push(Seg::Fault(Ev::Other(t.as_bytes().get(1).map(|c| c.wrapping_sub(b'a') + 1).unwrap_or(0)))),
+            "E" => segs.push(Seg::Fault(Ev::Eof(0))),
+            "Ee" => segs.push(Seg::Fault(Ev::Eof(1))),
+            "Ex" => segs.push(Seg::Fault(Ev::Eof(2))),
+            t => segs.push(Seg::Bytes(std::sync::Arc::new(untok(t)?))),
+        }
+    }
+    Some(EvStream { segs, si: 0, off: 0 })
 }
 
 /// `std::io::Read` that plays a list of events, then reports end of input (`Ok(0)`) forever
 pub struct IoPlayer {
-    evs: Vec<Ev>,
-    pos: usize,
+    evs: EvStream,
 }
 impl Read for IoPlayer {
     fn read(&mut self, buf: &mut [u8]) -> std::io::Result<usize> {
         if buf.is_empty() {
             return Ok(0);
         }
-        match self.evs.get(self.pos).copied() {
+        match self.evs.next_ev() {
             None => Ok(0),
             Some(ev) => {
-                self.pos += 1;
                 match ev {
                     Ev::Byte(b) => {
                         buf[0] = b;
@@ -336,16 +383,14 @@ impl Iterator for NonFused {
 
 /// embedded-hal 0.2 serial reader that plays a list of events, then `WouldBlock` forever
 pub struct EhPlayer {
-    evs: Vec<Ev>,
-    pos: usize,
+    evs: EvStream,
 }
 impl embedded_hal_02::serial::Read<u8> for EhPlayer {
     type Error = u8;
     fn read(&mut self) -> nb::Result<u8, u8> {
-        match self.evs.get(self.pos).copied() {
+        match self.evs.next_ev() {
             None => Err(nb::Error::WouldBlock),
             Some(ev) => {
-                self.pos += 1;
                 match ev {
                     Ev::Byte(b) => Ok(b),
                     Ev::WouldBlock => Err(nb::Error::WouldBlock),
@@ -735,22 +780,19 @@ fn collect_events(p: Parser) -> String {
     v.join(";")
 }
 
-fn sml_generic<B: Buffer>(kind: &str, use_default: bool, mk: fn() -> sml_rs::SmlReaderBuilder<B>, evs: &[Ev], calls: &[(char, char)]) -> String {
-    let bytes: Vec<u8> = evs
-        .iter()
-        .filter_map(|e| if let Ev::Byte(b) = e { Some(*b) } else { None })
-        .collect();
+fn sml_generic<B: Buffer>(kind: &str, use_default: bool, mk: fn() -> sml_rs::SmlReaderBuilder<B>, evs: &EvStream, calls: &[(char, char)]) -> String {
     match kind {
-        "mem" if evs.iter().any(|e| matches!(e, Ev::Eof(_))) => {
+        "mem" if evs.has_eof() => {
             // a non-fused iterator: yields `None` at the `E` positions and items again afterwards
-            let items: Vec<Option<u8>> = evs
-                .iter()
-                .filter_map(|e| match e {
-                    Ev::Byte(b) => Some(Some(*b)),
-                    Ev::Eof(_) => Some(None),
-                    _ => None,
-                })
-                .collect();
+            let mut items: Vec<Option<u8>> = Vec::new();
+            let mut e = evs.clone();
+            while let Some(ev) = e.next_ev() {
+                match ev {
+                    Ev::Byte(b) => items.push(Some(b)),
+                    Ev::Eof(_) => items.push(None),
+                    _ => {}
+                }
+            }
             let it = NonFused { items, pos: 0 };
             if use_default {
                 run_sml_calls(SmlReader::from_iterator(it), calls)
@@ -759,6 +801,7 @@ fn sml_generic<B: Buffer>(kind: &str, use_default: bool, mk: fn() -> sml_rs::Sml
             }
         }
         "mem" => {
+            let bytes: Vec<u8> = evs.bytes();
             // slice source and iterator sources (by value and by reference) must agree
             let a = if use_default {
                 run_sml_calls(SmlReader::from_slice(&bytes), calls)
@@ -782,7 +825,7 @@ fn sml_generic<B: Buffer>(kind: &str, use_default: bool, mk: fn() -> sml_rs::Sml
             }
         }
         "io" => {
-            let p = IoPlayer { evs: evs.to_vec(), pos: 0 };
+            let p = IoPlayer { evs: evs.clone() };
             if use_default {
                 run_sml_calls(SmlReader::from_reader(p), calls)
             } else {
@@ -790,7 +833,7 @@ fn sml_generic<B: Buffer>(kind: &str, use_default: bool, mk: fn() -> sml_rs::Sml
             }
         }
         "eh" => {
-            let p = EhPlayer { evs: evs.to_vec(), pos: 0 };
+            let p = EhPlayer { evs: evs.clone() };
             if use_default {
                 run_sml_calls(SmlReader::from_eh_reader(p), calls)
             } else {
@@ -833,7 +876,7 @@ fn do_sml(args: &[&str], all_bytes: bool) -> Option<String> {
     }
 }
 
-fn with_cap_sml(cap: Option<usize>, kind: &str, evs: &[Ev], calls: &[(char, char)]) -> String {
+fn with_cap_sml(cap: Option<usize>, kind: &str, evs: &EvStream, calls: &[(char, char)]) -> String {
     with_cap!(cap, B, mk => sml_generic::<B>(kind, false, mk, evs, calls))
 }
 
@@ -883,6 +926,28 @@ fn abuf_generic<const N: usize>(ops: &[&str]) -> String {
             "c" => {
                 a.clear();
                 out.push(format!("ok|{}", vis(&a)));
+            }
+            "q" => {
+                // equality must depend on the visible contents only: compare with a buffer freshly
+                // collected from the visible bytes (no stale bytes behind them), and with one that differs
+                let v: Vec<u8> = a.to_vec();
+                let fresh: ArrayBuf<N> = v.iter().copied().collect();
+                let e1 = a == fresh && fresh == a;
+                let e2 = if v.is_empty() {
+                    false
+                } else {
+                    let mut w = v.clone();
+                    let l = w.len();
+                    w[l - 1] ^= 0x40;
+                    let other: ArrayBuf<N> = w.iter().copied().collect();
+                    a == other || other == a
+                };
+                let shorter: ArrayBuf<N> = v.iter().copied().take(v.len().saturating_sub(1)).collect();
+                let e3 = !v.is_empty() && (a == shorter || shorter == a);
+                out.push(format!("eq:{}{}{}", e1 as u8, e2 as u8, e3 as u8));
+            }
+            "d" => {
+                out.push(format!("dbg:{}:{}", format!("{:?}", a).replace(' ', ""), format!("{:x?}", a).replace(' ', "")));
             }
             "i" => {
                 let bs = match untok(rest) {
